@@ -99,7 +99,9 @@ CLAIMS.update({
             "occurs twice, every operator was PENDING/FAILED and positive resources are requested; priority's suspensions name only active suspendable containers, so verify_valid_suspend "
             "accepts them; naive and overbook: C17/C18 theorems; the naive scheduler / starter template never raises in any well-formed world (`naive_round_never_raises`); EXECUTION NEVER GETS STUCK: on a "
             "consistent container (head operator RUNNING once started, the rest ASSIGNED, every parent COMPLETED or earlier in the container) `Container.tick`, `kill` and `suspend` never raise, and phases 3-6 of "
-            "a pool tick (write-outs, ticks, both OOM-killer steps, collection) never raise on a consistent pool and keep it consistent (`pool_run_never_raises`, Proofs/Progress.lean). NOT proved: that the closed loop of rounds and executor ticks never raises over a whole run (it is false of the shipped code "
+            "a pool tick (write-outs, ticks, both OOM-killer steps, collection) never raise on a consistent pool and keep it consistent; the WHOLE POOL TICK RAISES ONLY AT ITS GATES "
+            "(`pool_tick_raises_only_at_the_gates`: with assignments built by the checked constructor in dependency order and distinct suspension requests it either succeeds and stays ready, or refuses the commands "
+            "up front with noContainer/cannotSuspend/overCpu/overRam/opCount in a well-defined state; Proofs/Progress.lean, 1 300 lines). NOT proved: that the closed loop of rounds and executor ticks never raises over a whole run (it is false of the shipped code "
             "in one mode: known finding D11). Tie: closed-loop lock-step of each real scheduler + real Executor against the model on generated configurations (tiny pools, coarse ticks, "
             "zero-tick segments, both container modes, DAGs), run_simulator end-to-end incl. the `eudoxia init` template and short runs; `check_C08` on every implementation trace.",
             "Props/C08.lean; the run-to-the-end clause is decided by the tie (differential + Lean-defined checker on traces), not by a theorem"),
